@@ -308,7 +308,10 @@ def build_tolerancing(o, setup, samplers=True, override_samplers=None):
     from optiland.tolerancing.core import Tolerancing
     tol = Tolerancing(o, method=setup['method'], tol=setup['tol'])
     for od in setup['operands']:
-        tol.add_operand(od['type'], operand_input(o, od))
+        if 'weight' in od:
+            tol.add_operand(od['type'], operand_input(o, od), weight=od['weight'])
+        else:
+            tol.add_operand(od['type'], operand_input(o, od))
     if samplers:
         for i, p in enumerate(setup['perturbations']):
             sd = override_samplers[i] if override_samplers else p['sampler']
@@ -610,6 +613,15 @@ def gen_setup(rng, idx, tier):
                  'fresh': rng.choice(['rebuild', 'deepcopy'])}
         if comps and not any(od['type'] not in ('EPD',) for od in setup['operands']):
             continue
+        if comps and len(setup['operands']) >= 2 and rng.random() < 0.6:
+            # documented keyword of add_operand: the weight of the operand in the compensation
+            ws_ = [rng.choice([0.25, 1.0, 3.0, 10.0]) for _ in setup['operands']]
+            if len(set(ws_)) == 1:
+                ws_[0] = 10.0 if ws_[0] != 10.0 else 0.25
+            for od, w_ in zip(setup['operands'], ws_):
+                od['weight'] = w_
+            setup['tol'] = 1e-10       # a tight compensator, so that where it stops is decided by the merit function
+            setup['method'] = 'generic' if rng.random() < 0.8 else setup['method']
         # the operands must be defined on the nominal lens
         ev = evaluate_ops(o, setup)
         if any(isinstance(v, tuple) for v in ev):
@@ -643,6 +655,17 @@ def corpus():
                     perturbations=[{'type': 'radius', 'kw': {'surface_number': 1},
                                     'sampler': {'kind': 'range', 'start': 90, 'end': 110, 'steps': 4}}],
                     compensators=[{'type': 'thickness', 'kw': {'surface_number': 2}}], fresh='deepcopy'))
+    # operands with unequal weights and a compensator that has to compromise between them
+    spot5 = {'type': 'rms_spot_size', 'weight': 0.25,
+             'input': {'surface_number': -1, 'Hx': 0.0, 'Hy': 0.0, 'num_rays': 5, 'wavelength': 0.55,
+                       'distribution': 'hexapolar'}}
+    for w_f2, w_spot in ((10.0, 0.25), (0.25, 10.0)):
+        out.append(dict(base, lens={'sample': 'objectives.ReverseTelephoto'}, analysis='SA', tol=1e-10,
+                        flavour='corpus-weighted-compensation',
+                        operands=[dict(f2, weight=w_f2), dict(spot5, weight=w_spot)],
+                        perturbations=[{'type': 'radius', 'kw': {'surface_number': 1},
+                                        'sampler': {'kind': 'range', 'start': 95, 'end': 105, 'steps': 3}}],
+                        compensators=[{'type': 'thickness', 'kw': {'surface_number': 2}}]))
     # F-C15-1: index variable on a catalogue glass, operands at other wavelengths
     out.append(dict(base, lens={'sample': 'objectives.CookeTriplet'}, analysis='SA', flavour='corpus-index-glass',
                     operands=[ray, spot],
@@ -1076,6 +1099,50 @@ def check_setup(ctx, setup, lines, keep):
                                       'recorded': row['comp'], 'rerun': gc})
     if nan_rows:
         ctx.count('rows with an undefined (NaN) operand', nan_rows)
+
+    # (c) weighted compensation: the recorded compensation is (about) as good, in the WEIGHTED sum of squares
+    # sum (w_i (operand_i - target_i))^2 the documentation promises, as a minimisation of that sum done here with
+    # scipy on a fresh lens (not through the library's compensator)
+    wts = [float(od.get('weight', 1.0)) for od in setup['operands']]
+    # (method 'generic' only: LeastSquares hands scipy the squared terms as residuals, i.e. minimises another sum)
+    if setup['compensators'] and len(set(wts)) > 1 and not index_pert and rows and setup['method'] == 'generic':
+        import scipy.optimize
+        targets = [float(op.target) for op in tol.operands]
+
+        def gfun(xs, row):
+            f = fresh_lens(setup, N)
+            apply_row(f, setup, row, None)
+            for c, x in zip(setup['compensators'], xs):
+                write_value(f, c, float(x))
+            if has_ps:
+                f.update()
+            ops = evaluate_ops(f, setup)
+            if any(isinstance(v, tuple) or v != v for v in ops):
+                return 1e30
+            return float(sum((w_ * (v - t_)) ** 2 for w_, v, t_ in zip(wts, ops, targets)))
+        x0 = [float(nominal_value(N, c)) for c in setup['compensators']]
+        for ri, row in enumerate(rows[:2]):
+            if any(v != v for v in row['ops']) or any(v != v for v in row['comp']):
+                continue
+            best = None
+            for mode in ('scaled', 'raw'):
+                xr = [unscale(c, v) if mode == 'scaled' else v for c, v in zip(setup['compensators'], row['comp'])]
+                m = gfun(xr, row)
+                if best is None or m < best:
+                    best = m
+            m_0 = gfun(x0, row)
+            with quiet():
+                res = scipy.optimize.minimize(gfun, x0, args=(row,), method='Nelder-Mead',
+                                              options={'xatol': 1e-10, 'fatol': 1e-16, 'maxiter': 300})
+            m_mine = min(float(res.fun), m_0)
+            if math.isfinite(m_0) and m_0 < 1e29 and best > 10 * m_mine + 1e-2 * m_0 + 10 * float(setup['tol']) + 1e-18:
+                ctx.fail('row %d: the recorded compensation minimises the weighted sum of squares of the operand '
+                         'errors (weights as given to add_operand)' % ri, case,
+                         {'weighted merit of the recorded compensation': best, 'comp': row['comp']},
+                         {'weighted merit found by an independent minimisation': m_mine,
+                          'uncompensated': m_0, 'weights': wts})
+                break
+            ctx.count('rows checked against an independent weighted compensation (c)')
 
     # ---- clause 4: prescription after run() and after reset()
     def classify(diffs, lens_now):
